@@ -254,3 +254,22 @@ func VerifC03DrainPqsChan(waitMs int) int {
 	processBackFillAndEmptyPQSRequests(buf)
 	return len(buf)
 }
+
+// VerifC03UnrotatedTime: DoCMICheckForUnrotated of an open segment whose block summaries are sums (LowTs, HighTs in
+// the order the blocks were written) for a query without any micro-index work (wildcard value), the query time
+// range [start, end] and the given block tracker; returns the block numbers that stay.
+func VerifC03UnrotatedTime(sums [][2]uint64, start, end uint64, tracker *structs.BlockTracker) []uint16 {
+	usi := &UnrotatedSegmentInfo{isCmiLoaded: true, allColumns: map[string]bool{}}
+	for _, s := range sums {
+		usi.blockSummaries = append(usi.blockSummaries, &structs.BlockSummary{LowTs: s[0], HighTs: s[1], RecCount: 1})
+		usi.unrotatedBlockCmis = append(usi.unrotatedBlockCmis, map[string]*structs.CmiContainer{})
+	}
+	q := &structs.SearchQuery{MatchFilter: &structs.MatchFilter{MatchColumn: "*"}}
+	tf, _, _, _ := usi.DoCMICheckForUnrotated(q, &dtu.TimeRange{StartEpochMs: start, EndEpochMs: end}, tracker,
+		nil, nil, sutils.Or, nil, sutils.Equals, false, true, 0)
+	res := []uint16{}
+	for k := range tf {
+		res = append(res, k)
+	}
+	return res
+}
